@@ -458,6 +458,22 @@ func genG12(repo string, w *Out) error {
 	}
 	w.DefBool("close_returns_early_on_errclosed", early)
 
+	if err := g12IndexSites(repo, w); err != nil {
+		return err
+	}
+	// conntrack byte counters: which counter each wrapper method feeds
+	for _, x := range [][2]string{{"skel_conn_Read", "conn.Read"}, {"skel_conn_Write", "conn.Write"}, {"skel_conn_ReadFrom", "conn.ReadFrom"}} {
+		if _, err := emit(x[0], "conntrack/conntrack.go", x[1]); err != nil {
+			return err
+		}
+	}
+	cr, _, _ := skel("conntrack/conntrack.go", "conn.Read")
+	cw, _, _ := skel("conntrack/conntrack.go", "conn.Write")
+	cf, _, _ := skel("conntrack/conntrack.go", "conn.ReadFrom")
+	w.DefBool("read_feeds_rx", g12Has(cr, "call c.o.addRx(uint64(n))") && !g12HasPrefix(cr, "call c.o.addTx("))
+	w.DefBool("write_feeds_tx", g12Has(cw, "call c.o.addTx(uint64(n))") && !g12HasPrefix(cw, "call c.o.addRx("))
+	w.DefBool("readfrom_feeds_tx", g12Has(cf, "call c.o.addTx(uint64(n))") && !g12HasPrefix(cf, "call c.o.addRx("))
+
 	// forwarder's trace hooks in middlewareStack: nil guards
 	hpf, err := Parse(repo, "http_proxy.go")
 	if err != nil {
